@@ -206,7 +206,12 @@ func mergeListMatch(obj []any, m any, v map[string]any) ([]any, error) {
 		if match(v2, m) {
 			found = true
 
-			v2, err := merge(v2, val)
+			valCopy, err := deepClone(val)
+			if err != nil {
+				return nil, err
+			}
+
+			v2, err := merge(v2, valCopy)
 			if err != nil {
 				return nil, err
 			}
